@@ -29,7 +29,7 @@ CONSTANTS
   MaxRich <- Unlimited
   NCmtCls = 3
   NCppForms = 4
-  NGarb = 5
+  NGarb = 7
   DirectiveCls <- DirCls
 INVARIANT WellNested
 INVARIANT GrammarInNest
